@@ -79,7 +79,7 @@ def _conv_error(case, n):
         integ = "rk4"
     cfl = 0.4 if integ != "cranknicolson" else 0.25
     solver = cases.build_integrator(integ, mesh, disc)
-    res = solver.solve(f, cfl, [T])
+    res = solver.solve(f, cfl, [T], stop={"maxit": int(20 * n * max(case["T"], 0.05) / cfl) + 100})
     require(len(res) == 1 and abs(res[0].time - T) <= 1e-9 * T, "convection-solve", "solve to T=%r returned %d snapshots (last time %r)" % (T, len(res), res[-1].time if len(res) else None))
     exact = _cellavg_sin(xf, case["k"], L, case["phase"], a * T)
     dx = xf[1:] - xf[:-1]
@@ -194,8 +194,11 @@ def _riemann_error(case, n, T, exact):
     prim = [np.where(xc < 0, L[k], R[k]) for k in range(3)]
     f = cases.build_field(model, mesh, cases.cons_from_prim(md, prim))
     solver = cases.build_integrator(case["integ"], mesh, disc)
-    res = solver.solve(f, case["cfl"], [T])
-    require(len(res) == 1 and abs(res[0].time - T) <= 1e-9 * T, "riemann-solve", "solve to T=%r returned %d snapshots" % (T, len(res)))
+    # the fan covers 0.35 of the domain at the fastest wave speed: ~0.35 n / CFL iterations.  An iteration limit 20x that turns a run that never reaches T
+    # (e.g. a non-finite time step) into a reported failure instead of a hang
+    res = solver.solve(f, case["cfl"], [T], stop={"maxit": int(20 * n / case["cfl"]) + 100})
+    require(len(res) == 1 and abs(res[0].time - T) <= 1e-9 * T, "riemann-solve", "solve to T=%r on %d cells returned %d snapshots within %d iterations: the run does not reach the requested time (%s/%s/%s)"
+            % (T, n, len(res), int(20 * n / case["cfl"]) + 100, case["flux"], case["num"].get("limiter", case["num"]["name"]), case["integ"]))
     num = cases.prim_from_cons(md, res[0].data)
     require(all(np.all(np.isfinite(x)) for x in num), "riemann-finite", "non-finite solution on %d cells (%s/%s/%s)" % (n, case["flux"], case["num"], case["integ"]))
     # exact cell averages approximated by 4-point sampling inside each cell (self-similar solution)
